@@ -81,6 +81,7 @@ def run_case(tape, tier):
                                 trace_len=len(run.trace), faults=dict(res.faults))
     res.event_digest = sched.trace_digest(run)
     res.scen_digest = digest(dict(p=sched.prog_readable(prog), f=sorted(res.faults.items())))
+    sched.check_runaway(run, res)
     res.comparisons = sched_oracles.check_lifecycle(run, res)
     started = [n for n, st in run.st.items() if st.entered]
     run.doist_roots_entered = [n for n in started if run.st[n].parent is run.doist]
